@@ -137,7 +137,8 @@ def worker(job, extra):
         return precision_job(job, res)
     # float vs exact on tie-free workloads (ordinary nodes only)
     prof = {'p_lattice': 0.0, 'p_ps': 0.0, 'p_exact': 0.0, 'p_kinds': (0.7, 0.1, 0.2, 0.0), 'horizons': [10.0, 20.0], 'p_batch': 0.2,
-            'p_renege': 0.3, 'p_prio': 0.4, 'p_cct': 0.1, 'p_ccm': 0.2}
+            'p_renege': 0.3, 'p_prio': 0.4, 'p_cct': 0.1, 'p_ccm': 0.2,
+            'p_custom_dist': 0.0}   # time / state dependent distributions are discontinuous in t: a 1e-16 difference legitimately flips a sample
     spec = job.get('spec') or gen.gen_spec(seed, prof)
     spec['tie'] = 'native'
     k = random.Random(seed).choice([12, 14, 20, 26])
@@ -163,8 +164,14 @@ def worker(job, extra):
         res['status'] = 'tie_skipped'; return res
     ra = sorted([r for i in all_individuals(A) for r in i.data_records], key=lambda r: (r.id_number, float(r.arrival_date), r.record_type))
     rb = sorted([r for i in all_individuals(B) for r in i.data_records], key=lambda r: (r.id_number, float(r.arrival_date), r.record_type))
+    # an event that falls on the horizon in one arithmetic and a hair before it in the other is executed in one run only:
+    # records ending within 1e-6 of the horizon are left out of the comparison
+    Tm = spec['run']['T'] - 1e-6
+    ra = [r for r in ra if float(r.exit_date) < Tm]
+    rb_all = rb
+    rb = [r for r in rb if float(r.exit_date) < Tm]
     res['nrec'] = len(rb)
-    for rec in rb:
+    for rec in rb_all:
         for f in FIELDS:
             v = getattr(rec, f)
             if isnan(v): continue
